@@ -41,7 +41,6 @@ FLOORS = {"quick": {"cases_held": 1000, "solves_checked": 8000, "inspan_cols_jud
                        "inv_lda_nonempty": 150000, "patterns_n4": 4096}}
 TIMEOUT_SHARD = {"quick": 900, "thorough": 5400}
 K3 = "reuse/inner-solver-called-for-in-span-real-rhs-after-complex-rhs-on-real-matrix"
-K3_CTX = "after-complex-rhs-on-real-matrix"
 
 DENSE_INNER = {"nonsym": ["SolverDenseLU", "SolverDenseQR"], "sym": ["SolverDenseLU", "SolverDenseLDL"],
                "herm": ["SolverDenseLU", "SolverDenseLDL"], "diag": ["SolverDenseLU", "SolverDiagonal"]}
@@ -165,7 +164,7 @@ def run_history(case, ctx, rng):
     solved = {"N": [], "T": [], "H": []}
     had_complex_rhs = False
     ops = ["new", "new", "repeat", "combo", "combo", "zero", "block", "blockdep", "blockscaled", "cplx", "x0", "x0span", "blockx0", "update",
-           "newpattern", "other", "nearspan", "nearspan"]
+           "newpattern", "other", "nearspan", "nearspan", "blocknear"]
     # a second wrapper (own inner solver, own matrix of the same class) lives in the same process and is used in between:
     # the two must not know of each other
     other = None
@@ -178,16 +177,12 @@ def run_history(case, ctx, rng):
     nA = float(np.linalg.norm(A)) / np.sqrt(n)
     log = []
     nres = 0
-    def relabel_k3():
-        # further manifestations of the listed finding K3 (complex basis on a real matrix: real right-hand sides are solved again and
-        # stored although nearly dependent on the complex vectors): once the basis fills up, the stored pairs lose orthogonality /
-        # consistency and answers may miss the tolerance by a small factor.  Labelled by their context, so that the same symptoms
-        # anywhere else remain violations.
-        from .. import monitors as _mon
-        vs_ = _mon.STATE.violations
-        for i_, (m_, d_) in enumerate(vs_):
-            if m_.startswith("lda-invariant/") and not m_.endswith(K3_CTX):
-                vs_[i_] = (m_ + "/" + K3_CTX, d_)
+    # the columns of one block are all solved in full and orthogonalised afterwards; a column that is *nearly* a combination of the
+    # others (off by delta, e.g. loads read from a float32 file) leaves a remainder of relative size delta, whose normalisation used
+    # to amplify the rounding of that subtraction to eps*cond/delta (repaired; see known_findings.json, "fixed").  Whether such a
+    # column counts as dependent is the wrapper's call when delta is within two decades of its tolerance ("edge"): the re-use
+    # clause is then not judged for right-hand sides that may contain it, every other clause is.
+    near_ctx = {"on": False, "edge": False}
 
     for k in range(case["nops"]):
         op = str(rng.choice(ops))
@@ -195,8 +190,7 @@ def run_history(case, ctx, rng):
         if op in ("update", "newpattern"):
             A = _next_matrix(case, rng, A, op == "newpattern")
             w.update(matgen.to_storage(A, st))
-            if (not cplxA) and had_complex_rhs:
-                relabel_k3()           # (the invariant hook also runs on entry of update(), on the state the history left)
+            near_ctx["on"] = near_ctx["edge"] = False
             solved = {"N": [], "T": [], "H": []}
             had_complex_rhs = False
             log.append(op)
@@ -251,6 +245,14 @@ def run_history(case, ctx, rng):
             dv = rng.standard_normal(n) + (1j * rng.standard_normal(n) if np.iscomplexobj(b0) else 0)
             b = b0 + dlt * np.linalg.norm(b0) * dv / np.linalg.norm(dv)
             ctx.count("nearspan_rhs")
+        elif op == "blocknear":
+            b = rng.standard_normal((n, 3)).astype(complex if cdata else float)
+            dlt = 10.0 ** rng.uniform(-9, -5)
+            dv = rng.standard_normal(n)
+            b[:, 2] = b[:, 0] - 2 * b[:, 1] + dlt * np.linalg.norm(b[:, 0]) * dv / np.linalg.norm(dv)
+            near_ctx["on"] = True
+            near_ctx["edge"] = near_ctx["edge"] or dlt < 100 * tol
+            ctx.count("blocks_with_nearly_dependent_columns")
         elif op == "zero":
             b = np.zeros(n)
         elif op == "block":
@@ -324,9 +326,6 @@ def run_history(case, ctx, rng):
                 continue
             raise Violation(f"call-fails-where-fresh-wrapper-succeeds/{type(e).__name__}@{exc_site(e)}",
                             op=desc, error=short_exc(e), history=log[-8:])
-        k3ctx = (not cplxA) and (had_complex_rhs or bool(np.iscomplexobj(b)))
-        if k3ctx:
-            relabel_k3()
         x = np.asarray(x)
         require(x.shape == b.shape, "answer-shape-differs-from-rhs", op=desc, got=list(x.shape))
         require(bool(np.all(np.isfinite(x))), "answer-not-finite", op=desc, history=log[-8:])
@@ -345,9 +344,6 @@ def run_history(case, ctx, rng):
         fl = 0.0 if x0 is None else 1e3 * np.finfo(float).eps * float(np.linalg.norm(A, 2)) * float(np.max(np.linalg.norm(x0.reshape(n, -1), axis=0))) \
             / max(float(np.min(nb[nb > 0], initial=np.inf)), 1e-300)
         if float(np.max(rel)) > max(10 * tol, fl):
-            if k3ctx and float(np.max(rel)) <= 1e4 * tol:
-                raise Violation("answer-misses-wrapper-tolerance/" + K3_CTX, op=desc, residual=float(np.max(rel)), history=log[-8:], n=n,
-                                inner=case["inner"])
             raise Violation("answer-does-not-solve-requested-system-of-current-matrix", op=desc, residual=float(np.max(rel)),
                             history=log[-8:], n=n, kind=case.get("kind", case.get("cls")), storage=st, inner=case["inner"])
         # re-use clause
@@ -359,8 +355,11 @@ def run_history(case, ctx, rng):
             mech = "reuse/inner-solver-called-for-in-span-or-zero-rhs"
             if (not cplxA) and had_complex_rhs and not np.iscomplexobj(b):
                 mech = K3
-            ctx.violate(mech, op=desc, passed_to_inner=int(passed), columns_not_in_span=int((~free).sum()),
-                        history=log[-8:], kind=case.get("kind", case.get("cls")), inner=case["inner"])
+            if near_ctx["edge"] and mech != K3 and passed - int((~free).sum()) <= int((span & ~zero).sum()):
+                ctx.count("reuse_not_judged_at_tolerance_edge")       # (explained by non-zero in-span columns alone)
+            else:
+                ctx.violate(mech, op=desc, passed_to_inner=int(passed), columns_not_in_span=int((~free).sum()),
+                            history=log[-8:], kind=case.get("kind", case.get("cls")), inner=case["inner"])
         # bookkeeping: everything answered is now "already solved" for this mode
         for j in range(bb.shape[1]):
             # (a near-span right-hand side that the wrapper answered from its basis within the tolerance was not "solved": it is
@@ -368,8 +367,6 @@ def run_history(case, ctx, rng):
             if nb[j] > 0 and not (op == "nearspan" and passed == 0):
                 solved[trans].append(bb[:, j].copy())
         had_complex_rhs = had_complex_rhs or np.iscomplexobj(b)
-        if (not cplxA) and had_complex_rhs:
-            relabel_k3()
     return nres
 
 
